@@ -1,7 +1,7 @@
 """timing_worker.py — tokenizes each input line (JSON string) and prints `<index> <seconds>`; run in a subprocess so that a
 catastrophic match can be killed (CPython's re does not return to the interpreter while it backtracks)."""
-import sys, json, time
-sys.path.insert(0, '/repo')
+import sys, json, time, os
+sys.path.insert(0, os.environ.get('SQLPARSE_REPO', '/repo'))
 from sqlparse import lexer
 for i, line in enumerate(sys.stdin):
     s = json.loads(line)
